@@ -1,21 +1,28 @@
 """C01 - xbasic_fixed_string behaves as a std::basic_string bounded by its capacity N.
 
+ 0. Compile-time: the public interface as a table of static_asserts (harness/fixedstring/sig_probe.cpp, 283 rows:
+    every overload exists and returns what std::basic_string returns); wchar_t / char32_t instantiate.
  1. TLC: FixedString.tla (L1) invariants, laws (independent scanning definitions of the search family,
-    mirror laws, insert/erase/replace algebra), observer purity; both policies, packed and strlen rules.
- 2. TLC: FixedStringImpl.tla (L2, buffer-level transcription of the three storage layouts) refines L1.
+    mirror laws, insert/erase/replace algebra), observer purity; both policies, packed and strlen rules,
+    sources that lie inside the object itself included.
+ 2. TLC: FixedStringImpl.tla (L2, buffer-level transcription of the three storage layouts, aliasing sources
+    read from the cells as they are when the copy runs) refines L1.
  3. S->C: TLC enumerates every (state, call, arguments) transition of L1 at N = 3 (all 40 strings over
     {NUL, 1, 2}, positions / counts 0..N+2 and npos, defaulted arguments, every overload family and source
-    kind); each call is replayed on real objects (packed char, strlen char, packed char16_t[, wchar_t])
-    reached through clean and dirty histories and the observed result / projection are compared with TLC's.
- 4. C->S: seeded random scripts, boundary biased, for N in {1, 2, 15, 16, 255 (packed), 256, 300 (size
-    field)}, strlen N = 16, char16_t; every recorded step is validated by TLC against FixedStringTrace.tla,
-    which also requires std::hash to be a function of the characters alone (C14 clause).
+    kind incl. the object itself / pointers / iterators into it); each call is replayed on real objects
+    (packed char, strlen char, packed char16_t[, wchar_t]) reached through clean and dirty histories and the
+    observed result / projection are compared with TLC's.  Thorough: N = 4 (121 strings), stratified sample.
+ 4. C->S: the upstream unit tests' own call sequences; seeded random scripts, boundary biased, for N in
+    {1, 2, 15, 16, 128, 200, 255 (packed), 256, 300 (size field)}, strlen N = 16, char16_t, wchar_t (negative code
+    units), char32_t, drivers built with g++ / clang++, -O0/-O1/-O2, NDEBUG, XTL_NO_EXCEPTIONS; every recorded step
+    is validated by TLC against FixedStringTrace.tla, which also requires std::hash to be a function of the
+    characters alone (C14 clause).
  5. The same scripts are run on std::basic_string: the specification must accept the standard library.
 Within the capacity only (no call may exceed N); C02 covers the failing calls of the throwing policy.
 """
 import json, os, random
 from concurrent.futures import ThreadPoolExecutor
-from vlib import core, fixedstring as fx
+from vlib import core, fixedstring as fx, fixedstring_upstream as up
 from vlib.core import MachineryError
 
 PID = "C01"
@@ -26,8 +33,17 @@ def replay(ctx, path):
 
 
 def run(ctx):
+    started = []        # background work (TLC enumerations) that must not outlive the run, whatever way it ends
+    try:
+        return _run(ctx, started)
+    finally:
+        for x in started:
+            x.close()
+
+
+def _run(ctx, started):
     q = ctx.quick
-    findings = core.load_findings(PID)
+    findings = fx.effective_findings(PID)
     cls = fx.classify(findings)
     mk = fx.make_cfg
 
@@ -35,13 +51,16 @@ def run(ctx):
         "p3": [mk("char", 3, 0, 0), mk("char16_t", 3, 0, 0)],
         "s3": [mk("char", 3, 1, 0)],
     }
-    rnd_cfgs = [mk("char", 1, 0, 0), mk("char", 2, 0, 1), mk("char", 15, 0, 0), mk("char", 16, 0, 1), mk("char", 255, 0, 0),
-                mk("char", 256, 0, 1), mk("char", 300, 0, 0), mk("char", 16, 1, 0), mk("char16_t", 16, 0, 0)]
+    # (the build flavours - compiler, optimisation level, NDEBUG - ride on configurations that are needed anyway)
+    # p16t, s16t and p255t are also the configurations of the upstream tests (one driver build serves both)
+    rnd_cfgs = [mk("char", 1, 0, 0), mk("char", 16, 0, 1), mk("char", 128, 0, 0, fl="o"), mk("char", 255, 0, 1), mk("char", 256, 0, 1, fl="co"),
+                mk("char", 300, 0, 0, fl="c"), mk("char", 16, 1, 1), mk("char16_t", 16, 0, 0)]
     ref_cfgs = [mk("char", 16, 0, 0, ref=1)]
     if not q:
-        rnd_cfgs += [mk("char", 16, 0, 0), mk("char", 255, 0, 1), mk("char", 256, 0, 0), mk("char", 300, 0, 1), mk("char", 1, 1, 1),
-                     mk("char", 2, 1, 0), mk("char", 16, 1, 1), mk("char16_t", 300, 0, 1), mk("char", 7, 0, 0), mk("char", 8, 1, 1)]
-        ref_cfgs.append(mk("char16_t", 16, 0, 0, ref=1))
+        rnd_cfgs += [mk("char", 2, 0, 1), mk("char", 15, 0, 0, fl="co"), mk("char", 16, 0, 0, fl="z"), mk("char", 255, 0, 0, fl="o"), mk("char", 256, 0, 0),
+                     mk("char", 300, 0, 1), mk("char", 1, 1, 1), mk("char", 2, 1, 0), mk("char", 16, 1, 0, fl="co"), mk("char16_t", 300, 0, 1), mk("char", 7, 0, 0),
+                     mk("char", 8, 1, 1, fl="o"), mk("char", 200, 0, 0), mk("char", 129, 0, 1, fl="c"), mk("char", 16, 0, 0, fl="x"), mk("char", 16, 1, 0, fl="x")]
+        ref_cfgs += [mk("char16_t", 16, 0, 0, ref=1), mk("wchar_t", 16, 0, 0, ref=1)]
 
     # ---- wchar_t / char32_t with the default storage: does it compile? (compile-time clause of the property)
     wide_ok, wide_out = fx.wide_probe(ctx)
@@ -49,7 +68,7 @@ def run(ctx):
         rnd_cfgs.append(mk("wchar_t", 16, 0, 1))
         if not q:
             s2c_targets["p3"].append(mk("wchar_t", 3, 0, 0))
-            rnd_cfgs.append(mk("char32_t", 16, 0, 0))
+            rnd_cfgs += [mk("char32_t", 16, 0, 0), mk("wchar_t", 300, 0, 0, fl="o")]
     else:
         msg = [l for l in wide_out.splitlines() if "error" in l][:2]
         ctx.violation("xbasic_fixed_string<wchar_t, N> / <char32_t, N> with the default storage does not compile: %s" % " | ".join(msg),
@@ -60,13 +79,23 @@ def run(ctx):
         s2c_targets["p4"] = [mk("char", 4, 0, 0)]
         s2c_targets["s4"] = [mk("char", 4, 1, 0)]
         sim_cfgs = [("packed", mk("char", 8, 0, 0)), ("strlen", mk("char", 8, 1, 0))]
-    all_cfgs = [c for v in s2c_targets.values() for c in v] + rnd_cfgs + ref_cfgs + [c for _, c in sim_cfgs]
+    up_scripts = [(n, mk(**kw), ev) for n, kw, ev in up.scripts()]
+    directed = fx.merge_by_cfg("directed", up_scripts + [("alias-%d" % i, mk(**kw), ev) for i, (kw, ev) in enumerate(fx.ALIAS_DIRECTED)])
+    all_cfgs = [c for v in s2c_targets.values() for c in v] + rnd_cfgs + ref_cfgs + [c for _, c in sim_cfgs] + [c for _, c, _ in directed]
     pool = ThreadPoolExecutor(max_workers=1)
-    fut = pool.submit(fx.build_drivers, ctx, all_cfgs)
+    fut = pool.submit(fx.prepare, ctx, all_cfgs)
+    # the S->C enumerations do not depend on the include tree: TLC starts on them now, the replays use them later
+    S2C = (("p3", ["FixedString_s2c_p3_silent.cfg", "FixedString_s2c_p3_silent_pair.cfg"]),
+           ("s3", ["FixedString_s2c_s3_silent.cfg", "FixedString_s2c_s3_silent_pair.cfg"]),
+           ("p4", ["FixedString_s2c_p4_silent.cfg", "FixedString_s2c_p4_silent_pair.cfg"]),
+           ("s4", ["FixedString_s2c_s4_silent.cfg", "FixedString_s2c_s4_silent_pair.cfg"]))
+    enums = fx.Enumerations(ctx, [cfg for key, cfgs in S2C if key in s2c_targets for cfg in cfgs], ahead=3 if q else 2)
+    started.append(enums)
 
     # ---- 1. L1 model checking
-    r = {"violated": None} if fx.SKIP_MC else core.tlc_model_check(ctx, "FixedStringMC", "FixedString_mc.cfg" if q else "FixedString_mc_thorough.cfg",
-                             "L1 invariants, laws, observer purity, failed calls change nothing", coverage=not q, heap="8g", timeout=2400, workers=fx.WORKERS)
+    with fx.stage(ctx, "l1_model_check"):
+        r = {"violated": None} if fx.SKIP_MC else fx.retry_killed(lambda: core.tlc_model_check(ctx, "FixedStringMC", "FixedString_mc.cfg" if q else "FixedString_mc_thorough.cfg",
+                               "L1 invariants, laws, observer purity, failed calls change nothing", coverage=not q, heap="3g", timeout=2400, workers=fx.WORKERS))
     if r["violated"]:
         raise MachineryError("L1 spec FixedString.tla violates its own theorem %s (oracle bug), see %s" % (r["violated"], r["outfile"]))
     if r.get("coverage"):
@@ -75,82 +104,105 @@ def run(ctx):
         ctx.notes["l1_mc_coverage_distinct_generated"] = r["coverage"]
 
     # ---- 2. L2 => L1 refinement (advisory)
-    for cfg in [] if fx.SKIP_MC else (["FixedStringImpl_mc.cfg"] if q else ["FixedStringImpl_mc.cfg", "FixedStringImpl_mc_thorough.cfg"]):
-        if os.path.exists(os.path.join(core.SPECS, cfg)):
-            r2 = core.tlc_model_check(ctx, "FixedStringImplMC", cfg, "L2 (buffer-level transcription of the storage layouts) refines L1", heap="8g", timeout=2400, workers=fx.WORKERS)
-            if r2["violated"]:
-                ctx.drift.append("FixedStringImpl.tla does not refine FixedString.tla (%s); see %s" % (r2["violated"], r2["outfile"]))
+    with fx.stage(ctx, "l2_refinement"):
+        fx.l2_model_check(ctx, ["FixedStringImpl_mc.cfg", "FixedStringImpl_mc_n3q.cfg"] if q else ["FixedStringImpl_mc.cfg", "FixedStringImpl_mc_n3q.cfg", "FixedStringImpl_mc_thorough.cfg"],
+                        "L2 (buffer-level transcription of the storage layouts, aliasing sources included) refines L1")
 
-    drivers = fut.result()
+    with fx.stage(ctx, "wait_for_driver_builds"):
+        drivers = fut.result()
     pool.shutdown()
+    have = lambda c: c["name"] in drivers
 
-    # ---- 3./4. C->S random scripts (+ the same generator on std::basic_string)
-    scripts = []
+    # ---- 3./4. C->S: upstream test sequences, directed aliasing executions, random scripts (+ the same generator on std::basic_string)
+    scripts = [x for x in directed if have(x[1])]
+    ctx.notes["upstream_test_scripts"] = {"scripts": len(up_scripts), "events": sum(len(e) for _, _, e in up_scripts),
+                                          "not_expressible": len(up.NOT_EXPRESSIBLE)}
     for c in rnd_cfgs:
-        big = c["n"] >= 255
-        nexec, nops = ((12, 40) if big else (40, 45)) if q else ((60, 50) if big else (300, 60))
+        if not have(c):
+            continue
+        big = c["n"] >= 128
+        nexec, nops = ((12, 40) if big else (40, 45)) if q else ((60, 50) if big else (200, 60))
         lines = fx.random_script(ctx.seed, c, nexec, nops, fail_bias=0.04)
-        for i, ch in enumerate(fx.chunk_by_reset(lines, 1 if q else 3)):
+        for i, ch in enumerate(fx.chunk_by_reset(lines, 1 if q else 2)):
             scripts.append(("rnd-%s-%d" % (c["name"], i), c, ch))
     for lay, c in sim_cfgs:
+        if not have(c):
+            continue
         lines, nw = fx.sim_scripts(ctx, "FixedString_sim_%s_silent.cfg" % lay, c, 500, 40, c["name"])
         ctx.notes.setdefault("simulation_walks", {})[c["name"]] = nw
         for i, ch in enumerate(fx.chunk_by_reset(lines, 2)):
             scripts.append(("sim-%s-%d" % (c["name"], i), c, ch))
     for c in ref_cfgs:
-        lines = fx.random_script(ctx.seed + 17, c, 40 if q else 300, 45, fail_bias=0.04, allow_known=True)
-        scripts.append(("ref-" + c["name"], c, lines))
+        if have(c):
+            lines = fx.random_script(ctx.seed + 17, c, 40 if q else 300, 45, fail_bias=0.04, allow_known=True)
+            scripts.append(("ref-" + c["name"], c, lines))
     for fnd in findings:
         if "probe" in fnd:
             pc = mk(**fnd["probe"]["cfg"])
             if pc["name"] not in drivers:
-                drivers.update(fx.build_drivers(ctx, [pc]))
-            scripts.append(("probe-" + fnd["id"], pc, fnd["probe"]["script"]))
-    ctx.sample({"script": [json.dumps(x) for x in scripts[3][2][:10]]})
-    ctx.sample({"script": [json.dumps(x) for x in scripts[-1][2][:6]]})
-    fx.run_and_validate(ctx, scripts, drivers, findings)
+                drivers.update(fx.build_drivers(ctx, [pc], tolerate=True))
+            if pc["name"] in drivers:
+                scripts.append(("probe-" + fnd["id"], pc, fnd["probe"]["script"]))
+    if scripts:
+        rs = [x for x in scripts if x[0].startswith("rnd-")]
+        if rs:
+            ctx.sample({"script": [json.dumps(x) for x in rs[min(3, len(rs) - 1)][2][:10]]})
+        ctx.sample({"script": [json.dumps(x) for x in scripts[-1][2][:6]]})
+        with fx.stage(ctx, "c2s_run_and_validate"):
+            fx.run_and_validate(ctx, scripts, drivers, findings)
     ctx.cov["evaluations"] += ctx.cov["events_validated"]
     ctx.log("C->S: validated %d events of %d executions with TLC" % (ctx.cov["events_validated"], ctx.cov["traces_validated_against_impl"]))
 
-    # ---- 5. S->C: every L1 transition at N = 3, silent policy (within the capacity)
+    # ---- 5. S->C: every L1 transition at N = 3, silent policy (within the capacity); N = 4: stratified sample
     opcount = {}
     tot_replayed = 0
-    for key, tcfgs in (("p3", ["FixedString_s2c_p3_silent.cfg", "FixedString_s2c_p3_silent_pair.cfg"]),
-                       ("s3", ["FixedString_s2c_s3_silent.cfg", "FixedString_s2c_s3_silent_pair.cfg"]),
-                       ("p4", ["FixedString_s2c_p4_silent.cfg", "FixedString_s2c_p4_silent_pair.cfg"]),
-                       ("s4", ["FixedString_s2c_s4_silent.cfg", "FixedString_s2c_s4_silent_pair.cfg"])):
+    for key, tcfgs in S2C:
         if key not in s2c_targets:
             continue
-        if fx.FAILFAST and ctx.violations:
-            break
-        # the first target replays everything; other character types a seeded quarter in the quick tier
-        targets = [(c, drivers[c["name"]], 1.0 if (i == 0 or not q) else 0.25) for i, c in enumerate(s2c_targets[key])]
-        res = fx.s2c(ctx, targets, tcfgs)
+        if (fx.FAILFAST and ctx.violations) or len(ctx.violations) >= fx.ENOUGH_VIOLATIONS:
+            ctx.log("S->C %s skipped: %d violations are reported already" % (key, len(ctx.violations)))
+            continue
+        # N = 3: the first target replays everything, the other character types a stratified sample (quick: a tenth, thorough: a quarter);
+        # N = 4 (thorough): a stratified sample of the ~5 million transitions (see fixedstring.s2c_worker)
+        n4 = key in ("p4", "s4")
+        targets = [(c, drivers[c["name"]], fx.KEEP_N4 if n4 else 1.0 if i == 0 else (0.1, 30) if q else (0.25, 60)) for i, c in enumerate(s2c_targets[key]) if have(c)]
+        if not targets:
+            continue
+        with fx.stage(ctx, "s2c_" + key):
+            res = fx.s2c(ctx, targets, tcfgs, enums=enums)
         for c, drv, _ in targets:
             tot, mism = res[c["name"]]
             tot_replayed += tot["replayed"]
             ctx.cov["evaluations"] += tot["events"]
             for op, n in tot["ops"].items():
                 opcount[op] = opcount.get(op, 0) + n
-            ctx.notes.setdefault("s2c", {})[c["name"]] = {k: tot[k] for k in ("tlc_generated", "transitions", "replayed", "events")}
+            ctx.notes.setdefault("s2c", {})[c["name"]] = {k: tot[k] for k in ("tlc_generated", "transitions", "replayed", "events", "strata", "strata_sampled")}
             fx.confirm_mismatches(ctx, c, drv, mism, cls)
+    enums.close()
     ctx.notes["s2c_calls_replayed_per_action"] = opcount
     fx.vacuity(ctx, opcount, scripts)
     ctx.cov["distinct_nontrivial"] = tot_replayed
 
     ctx.log("S->C: %d calls compared" % tot_replayed)
 
-    return core.finish(
+    return fx.conclude(
         ctx, "model_checking",
         rule="TLC: L1 (FixedString.tla) exhaustive for N=2, 3 characters, both policies, packed + strlen rules, two objects, all overload "
-             "families (invariants, laws); L2=>L1 refinement of the three storage layouts; S->C: every L1 transition at N=3 out of all "
-             "%s strings over {NUL,1,2} (positions/counts 0..N+2, npos, defaulted arguments; second object from representatives) replayed "
-             "on real packed-char / strlen-char objects (and a seeded part on char16_t / wchar_t) through clean and dirty histories, result "
-             "and projection compared with TLC's; C->S: seeded boundary-biased scripts at N in {1,2,15,16,255,256,300}, strlen 16, char16_t, "
-             "every step validated by TLC incl. hash function-ness; the same scripts accepted on std::basic_string. A case is one call with "
-             "its result and the full projection of both objects." % ("40" if q else "121"),
+             "families incl. sources inside the object itself (invariants, laws); L2=>L1 refinement of the three storage layouts; S->C: every L1 "
+             "transition at N=3 out of all 40 strings over {NUL,1,2} (positions/counts 0..N+2, npos, defaulted arguments; second object from "
+             "representatives) replayed on real packed-char / strlen-char objects (and a stratified part on char16_t / wchar_t) through clean and "
+             "dirty histories, result and projection compared with TLC's%s; C->S: the upstream tests' call sequences, seeded boundary-biased scripts "
+             "at N in {1,16,128,255,256,300}, strlen 16, char16_t, wchar_t, drivers built by g++ and clang++ at -O1/-O2 with and without NDEBUG, "
+             "every step validated by TLC incl. hash function-ness; the same scripts accepted on std::basic_string; a 283-row compile-time table "
+             "of the overload set and return types. A case is one call with its result and the full projection of both objects." % (
+                 "" if q else "; N=4: out of the 121 strings a stratified sample (every stratum (pre-state, operation) of at most %d calls completely, "
+                 "larger ones with probability max(%.2f, %d/size) per call, seeded)" % (fx.STRATUM_MIN, fx.KEEP_N4, fx.STRATUM_MIN)),
         assumptions=["the harness projection (size/length/empty/max_size, data(), iterators, guards) is read through the public API",
-                     "aliasing sources (the object itself as argument) are outside the property",
                      "std::basic_string-taking overloads and C strings are fed NUL-free contents; counted overloads get embedded NULs",
-                     "one-argument resize(n) that grows the string is excluded from generation (open finding: pads with ' ')"],
+                     "one-argument resize(n) that grows the string is excluded from generation (open finding: pads with ' ')",
+                     "stream extraction (operator>>) is not in the statement's operation list: modelled for non-empty white-space-free input only "
+                     "(on empty / all-blank input xtl clears the string where std::basic_string leaves it unchanged: not judged)",
+                     "a moved-from object may hold any valid string (free in trace validation; 'unchanged' where TLC enumerates)",
+                     "XTL_NO_EXCEPTIONS builds are exercised within the contract only (a failing check terminates the program there)",
+                     "char16_t capacities >= 65536 (size-field layout for 2-byte characters) and the json conversion of xjson.hpp are not exercised"],
         exhaustive=False)
